@@ -852,6 +852,8 @@ class dictable(Dict):
         b  |m     
         e  |m    
         """
+        if len(by) == 1 and isinstance(by[0], (list, tuple)):
+            by = tuple(by[0])
         if len(self) == 0:
             return self.copy()
         elif len(by):
